@@ -1007,3 +1007,43 @@ file_AG09_DOV_PM=aws_server+'AUSGeoid/AUSGeoid09_DOV_PM_V1.01.tif'
 
 # GRS80 normal gravity flattening [Moritz, 2000 Section 4]
 grs80_ngf = 0.005302440112
+
+
+# ---------------------------------------------------------------------------
+# Verification hook - inactive unless the environment variable GEODEPY_VERIF=1
+# is set when this module is imported.  It records attribute writes to the
+# shipped Ellipsoid / Projection / Transformation / TransformationSD constants
+# (a write barrier used by the purity check); it never changes a value.
+# ---------------------------------------------------------------------------
+import os as _verif_os
+if _verif_os.environ.get('GEODEPY_VERIF') == '1':
+    import threading as _verif_threading
+
+    _verif_writes = []       # (constant name, attribute, old repr, new repr, thread id, per-thread seq)
+    _verif_names = {}        # id(object) -> name of the shipped constant
+    _verif_seq = {}          # thread id -> number of writes seen from that thread
+    _verif_yield = None      # optional callback(name, attribute) called before a recorded write
+    _verif_lock = _verif_threading.Lock()
+
+    def _verif_setattr(self, attr, value):
+        name = _verif_names.get(id(self))
+        if name is not None:
+            tid = _verif_threading.get_ident()
+            with _verif_lock:
+                seq = _verif_seq.get(tid, 0) + 1
+                _verif_seq[tid] = seq
+                _verif_writes.append((name, attr, repr(getattr(self, attr, None)),
+                                      repr(value), tid, seq))
+            if _verif_yield is not None:
+                _verif_yield(name, attr)
+        object.__setattr__(self, attr, value)
+
+    def _verif_seal():
+        for _n, _v in list(globals().items()):
+            if isinstance(_v, (Ellipsoid, Projection, Transformation,
+                               TransformationSD)):
+                _verif_names.setdefault(id(_v), _n)
+        for _c in (Ellipsoid, Projection, Transformation, TransformationSD):
+            _c.__setattr__ = _verif_setattr
+
+    _verif_seal()
